@@ -413,6 +413,15 @@ func (w *World) applyActor(op *Op) {
 		time.Sleep(time.Duration(op.N) * time.Second)
 	case "tz":
 		time.Local = loadTZ(op.Arg) // the machine's zone changes between runs
+	case "shift-mtimes":
+		// every file's timestamp moves N seconds into the future, order and distances kept: the
+		// directory as seen after the machine's clock was set back, or on a server whose clock is ahead
+		for _, p := range fs.Paths() {
+			if d, ok := fs.Get(p); ok {
+				mt, _ := fs.Mtime(p)
+				fs.PutAt(p, d, mt.Add(time.Duration(op.N)*time.Second))
+			}
+		}
 	case "put-ent":
 		s := op.Spec.Clone()
 		if old, ok := w.Ents[s.ID]; ok {
@@ -426,6 +435,13 @@ func (w *World) applyActor(op *Op) {
 			w.Order = append(w.Order, s.ID)
 		}
 		w.Ents[s.ID] = s
+		if op.Arg == "keep-mtime" {
+			// an edit that keeps the file's old timestamp (cp -p, rsync -t, a restore from an archive)
+			if mt, ok := fs.Mtime(s.Path()); ok {
+				fs.PutAt(s.Path(), s.Render(), mt)
+				break
+			}
+		}
 		if op.Arg != "model-only" {
 			fs.Put(s.Path(), s.Render())
 		}
